@@ -141,7 +141,18 @@ class EqGen:
             a, b = s.render(at), s.render(bt)
             if R.random() < .08: a = call("ㅂ", ["ㅂ", "ㅅ", "ㄴ"])       # NaN only as a top-level operand
             return call("ㄴ", [a, b]), "eq"
-        if k < .41: at = s.val_t(d); return call("ㄴ", [s.render(at), s.render(s.perturb(at)), s.render(at)]), "eq3"
+        if k < .40: at = s.val_t(d); return call("ㄴ", [s.render(at), s.render(s.perturb(at)), s.render(at)]), "eq3"
+        if k < .43:
+            # a Boolean INSIDE a container against the numerically equal number (True / 1 / 1.0 / 1+0i, False / 0 / -0.0) at the same position: different
+            # kinds differ at every depth - as operands of ㄴ, as keys built, looked up and merged
+            b = R.random() < .5; num = R.choice([("int", 1 if b else 0), ("float", 1 if b else 0), ("cx", ("int", 1 if b else 0), ("int", 0))])
+            wrapk = R.choice(["list", "list", "exc", "list2", "dictval"])
+            def wr(t): return ("list", [t]) if wrapk == "list" else ("exc", [t]) if wrapk == "exc" else ("list", [("list", [("int", 7), t])]) if wrapk == "list2" else ("dict", [(("int", 3), t)])
+            A_, B_ = s.render(wr(("bool", b))), s.render(wr(num)); c = R.random()
+            if c < .4: return call("ㄴ", [A_, B_] if R.random() < .5 else [B_, A_]), "eq-bool-vs-number-nested"
+            if c < .7: return f"{A_} {call('ㅅㅈ', [B_, E(2)])} ㅎㄴ", "lookup-bool-vs-number-nested"
+            if c < .85: return call("ㅅㅈ", [B_, E(2), A_, E(3)]), "dict-bool-vs-number-nested"
+            return f"{A_} {call('ㄷ', [call('ㅅㅈ', [B_, E(2)]), call('ㅅㅈ', [A_, E(3)])])} ㅎㄴ", "merge-bool-vs-number-nested"
         if k < .45:
             # ONE evaluated value used for two or three operands (x -> x = x): equality is by VALUE, not by identity - a number with a NaN part (a
             # real NaN, a complex number whose real or imaginary part is NaN) differs from itself even as the same object; every other value equals itself
